@@ -271,10 +271,16 @@ func (n *c10node) field(healthy bool) zap.Field {
 		return zap.Stringer(n.key, s)
 	case c10Err:
 		if n.val%3 == 1 {
-			e := &c10group{s: fmt.Sprintf("grp%d", n.val), causes: []error{errors.New("cause-a"), &c10error{s: "cause-b"}}}
+			e := &c10group{s: fmt.Sprintf("grp%d", n.val), causes: []error{errors.New("cause-a"), &c10error{s: "cause-b"}, errors.New("cause-c")}}
 			switch f {
 			case ftPanic:
-				e.panic = boom(n.id)
+				if n.k%2 == 0 {
+					e.panic = boom(n.id)
+				} else {
+					// one of the causes panics in its Error() - first, middle
+					// or last - while the group's own message does not touch it
+					e.causes[(n.val/3)%3] = &c10error{panic: boom(n.id)}
+				}
 			case ftTypedNil:
 				e = nil
 			}
